@@ -1865,6 +1865,12 @@ def builtin_call(fr: Frame, name, args, kwargs):
 def isinstance_(fr, x, t):
     if isinstance(t, tuple):
         return sym.Or_(*[isinstance_(fr, x, tt) for tt in t])
+    if isinstance(t, z3.ArithRef) and isinstance(x, Obj) and "__type_tag__" in x.fields:
+        # symbolic class identities (integer tags): an instance of its own class, and of any class the tag's class derives
+        # from - the subclass relation between two different symbolic classes is unknown (an uninterpreted relation)
+        sub = z3.Function("class.derives_from", z3.IntSort(), z3.IntSort(), z3.BoolSort())
+        tx = x.fields["__type_tag__"]
+        return sym.Or_(tx == t, sub(tx, t))
     if isinstance(t, RepoCls):
         ci = fr.I.class_of(x)
         return ci is not None and t.ci in fr.I.repo.mro(ci)
